@@ -9,17 +9,87 @@ BASELINE_OFF = ("cd /repo && cargo nextest run --workspace --no-fail-fast --tool
                 "--profile pb --test-threads 8 --offline")
 
 # id -> (engine label, category, technique, text, note, design_ref)
+S_NOTE = ("Task-granularity interleavings on the real single-threaded executor (harness yield before every shared "
+          "operation, every pick order) stand for thread interleavings of linearizable primitives; the primitives "
+          "themselves are decided under C12/C13/C15 and the multi-threaded executor protocol under C04/C06 (engine M). "
+          "Scenario sizes are small (2-5 models, capacities 1-3, time offsets of a few ns around a second boundary).")
+S_TECH = "stateless DFS over all task pick orders of the real executor x bounded-exhaustive scenario enumeration, reference-model oracle on the event log"
+
 CHECKS = {
-    "C01": ("simx", "exploration",
-            "stateless DFS over all task pick orders x bounded-exhaustive driver command sequences, reference scheduler oracle",
+    "C01": ("simx", "exploration", S_TECH,
             "Every driver command sequence up to the stated depth over a 17-command alphabet (schedule*, cancel, step, "
-            "step_until, process_*) and three concurrent benches are run on the real single-threaded executor under every "
-            "task pick order; a reference scheduler (pending occurrences, cancellation, expected time of every sub-step) "
-            "is checked at every log event.",
-            "Task-granularity interleavings (yield before every shared operation) stand for thread interleavings of "
-            "linearizable primitives; the primitives themselves are checked under C12/C13/C15. Time values are small "
-            "offsets around a second boundary.",
-            "5/C01"),
+            "step_until, process_*) and concurrent benches are run on the real single-threaded executor under every "
+            "task pick order; a reference scheduler (pending occurrences, cancellation, expected time of every sub-step, "
+            "time seen by every handler) is checked at every log event.", S_NOTE, "5/C01"),
+    "C02": ("simx", "exploration", S_TECH,
+            "Triangle, relay chains, query+send, broadcast+relay and fan benches with capacities 1-2 (senders do block) "
+            "under every pick order; each message carries the set of sends completed in the causal past of its sending "
+            "(knowledge sets propagated along program order, deliveries and replies) and every recipient must have "
+            "processed all of them that were addressed to it.", S_NOTE, "5/C02"),
+    "C03": ("simx", "exploration", S_TECH,
+            "Plain/map/filter_map connections to models and sinks from outputs, requestors, event/query sources, "
+            "scheduler batches and process_*; volumes up to 2*cap+1; contended recipients; under every pick order the "
+            "multiset of (message, recipient) processed must equal the multiset accepted by the connections.", S_NOTE, "5/C03"),
+    "C04": ("simx", "exploration", S_TECH,
+            "Content-deterministic benches under every pick order: at every Ok return no handler is half-way, no send "
+            "pending, every sent message processed, and the per-command multiset of handler invocations, results and "
+            "sink contents is identical across all schedules; a call that does not return is a violation (watchdog).",
+            S_NOTE + " The multi-threaded executor's own protocol is explored by engine M when present in the evidence.", "5/C04"),
+    "C05": ("simx", "exploration", S_TECH,
+            "Benches with blocked senders, queries and concurrent wakers of one model under every pick order: init and "
+            "handlers of one model never nest or overlap and nothing is handled before init completed.", S_NOTE, "5/C05"),
+    "C06": ("simx", "exploration", S_TECH,
+            "Query loops, saturating loops, orphan mailboxes, stalling sub-models (depth 1-2, unnamed), mixtures and "
+            "healthy benches under every pick order; exact per-mailbox accounting from the log (deliveries started minus "
+            "handlers started, capped by capacity) decides Ok / Deadlock[exact list] / MessageLoss(n).", S_NOTE, "5/C06"),
+    "C07": ("simx", "exploration", S_TECH,
+            "All sequences (depth 4/5) of same-deadline scheduling requests of mixed kinds, origins and targets, model-"
+            "origin batches and batches larger than the mailbox, under every pick order; processing order per (origin, "
+            "target, time) must follow scheduling order (re-armed periodic occurrences rank at their predecessor's step).",
+            S_NOTE, "5/C07"),
+    "C08": ("simx", "exploration", S_TECH,
+            "Every request kind (Scheduler::schedule*, Context::schedule*, EventSource actions) x deadline class (past, "
+            "now, future; absolute/relative) x period (0, 1, 2) at three simulation times: accepted iff deadline > now "
+            "and period != 0, rejected requests never fire, accepted ones fire exactly at their deadlines, stepping "
+            "calls return (watchdog).", S_NOTE + " The race with foreign scheduling threads is decided by engine M when present.", "5/C08"),
+    "C09": ("simx", "exploration", S_TECH,
+            "All sequences (depth 3/4) over keyed one-shot/periodic requests (model inputs and source actions), cancel, "
+            "cancel-through-clone, auto-key conversion/drop, handler-side cancellation by an earlier same-time event, "
+            "step/step_until, under every pick order.", S_NOTE, "5/C09"),
+    "C10": ("simx", "exploration", S_TECH,
+            "Periodic series t0 in 1..3, p in {1,2,3 ns, 1 s}, up to three coinciding series from different origins, "
+            "every partition (depth 3/5) of the horizon into step/step_until(1..3)/cancel: each occurrence exactly once "
+            "at t0+k*p until cancelled.", S_NOTE, "5/C10"),
+    "C11": ("simx", "fault_enumeration", "exhaustive fault-kind x position x follow-up-sequence enumeration on the real crate (ST under every pick order, MT with real threads)",
+            "Each fault kind (panic str/String/custom payload in a model, sub-model, query, init, timed step; "
+            "NoRecipient from model/sub-model/source; MessageLoss; Deadlock; OutOfSync; Timeout; non-fatal BadQuery and "
+            "InvalidDeadline) is injected after three different prefixes and followed by every sequence of up to 2 "
+            "(thorough 3) further calls; classification, attribution, Terminated afterwards, frozen time and no model "
+            "code are checked on the single-threaded executor (all pick orders) and on the 2-worker executor.",
+            "On the multi-threaded executor the thread schedule is the OS's; the verdicts asserted do not depend on it.", "5/C11"),
+    "C14": ("simx", "exploration", S_TECH,
+            "Requestor and QuerySource with 0..3 (thorough 4) repliers over every vector of connection modes (plain, map, "
+            "two filters) and both request parities under every pick order (every completion order): reply vector equals "
+            "the expected one in connection order and is returned only after all repliers processed the request; port "
+            "clones share connections added through either clone.", S_NOTE, "5/C14"),
+    "C16": ("simx", "exploration", S_TECH,
+            "Hierarchies of depth 0..3 whose init scripts send events and queries to neighbours through capacity-1/2 "
+            "mailboxes, under every pick order: one init per model, inside SimInit::init, before its first handler; early "
+            "messages processed exactly once; names parent.child in contexts and in Panic/NoRecipient/Deadlock reports.",
+            S_NOTE, "5/C16"),
+    "C17": ("simx", "exploration", S_TECH,
+            "A model emitting 1..5 events through one output to two buffers, a slot and a second model, under every pick "
+            "order: per-sender order and content of the sinks.", S_NOTE + " The sink data structures themselves are decided by engine Q when present.", "5/C17"),
+    "C18": ("simx", "exploration", S_TECH,
+            "All driver sequences (depth 4/5) of scheduling and stepping commands under 17 scripted clocks (lag above / "
+            "equal / below tolerance, no tolerance, at the first four synchronisations): one synchronize per new time, "
+            "after all earlier computations, arguments never decrease, OutOfSync before any model code of that time.",
+            S_NOTE, "5/C18"),
+    "C19": ("simx", "fault_enumeration", "drop-point enumeration x all task pick orders on the real crate, drop-tracking tokens",
+            "For each bench (idle, blocked senders, pending query, queued actions of every kind, after a panic, with "
+            "orphans) the simulation is dropped at every position of the driver sequence under every pick order; every "
+            "model, message, scheduled argument and handler-local value is a tracked token that must be dropped exactly "
+            "once; no handler after the drop began; the drop returns (watchdog).", S_NOTE, "5/C19"),
 }
 
 NOT_YET = {}
